@@ -559,7 +559,7 @@ Proof.
     apply (sq_list_in _ from (piece_word_lt b c pt)) in Hf. apply (piece_bit p pt from Hnz) in Hf as [Hf Hat].
     apply (to_list_in from _ x (ldiff_lt _ _ (att_word_lt p pt from))) in Hx as [to [Hb ->]].
     rewrite N.ldiff_spec in Hb. apply andb_true_iff in Hb as [Hb1 Hb2].
-    apply (att_word_bit p Hlegal pt from to Ho) in Hb1. apply negb_true_iff in Hb2.
+    apply (att_word_bit p pt from to Ho) in Hb1. apply negb_true_iff in Hb2.
     pose proof (spec_targets_lt _ _ _ _ Hb1) as Hto.
     destruct (piece_cand pt from to Hf (or_introl Hr) Hat Hb1 (own_or_not to Hto Hb2)) as (P1 & P2 & P3).
     exists (mkmv from to NORMAL 3). split; [exact P1|]. now rewrite <- (lg_code _ P3), <- P2.
